@@ -365,6 +365,14 @@ where
                     Err(m) => self.events.push(json!({"e": "panic", "msg": m})),
                 }
             }
+            "pollRaw" => {
+                let r = vcommon::guard(|| self.rig.poll_raw());
+                self.flush();
+                match r {
+                    Ok(b) => self.events.push(json!({"e": "polled", "n": if b { 1 } else { 0 }, "q": false})),
+                    Err(m) => self.events.push(json!({"e": "panic", "msg": m})),
+                }
+            }
             "poll1" => {
                 let r = vcommon::guard(|| self.rig.poll_one());
                 self.flush();
@@ -501,8 +509,14 @@ where
             70..=71 if nconn > 0 => return json!({"c": "behClose", "id": r.gen_range(1..=nconn as i64)}),
             72..=73 => return json!({"c": "behCloseAll", "peer": r.gen_range(1..=2)}),
             74..=75 if nconn > 0 => return json!({"c": "keepAlive", "id": r.gen_range(1..=nconn as i64), "v": false}),
-            76..=90 => return json!({"c": "poll"}),
-            91..=99 => return json!({"c": "poll1"}),
+            76..=78 => {
+                // a notification from the behaviour, possibly for a peer without any connection
+                let t = if r.gen_bool(0.5) || nconn == 0 { json!({"any": r.gen_range(1..=2)}) } else { let id = r.gen_range(1..=nconn as i64); json!({"one": id, "peer": r.gen_range(1..=2)}) };
+                return json!({"c": "emit", "targets": [t]});
+            }
+            79..=90 => return json!({"c": "poll"}),
+            91..=95 => return json!({"c": "poll1"}),
+            96..=99 => return json!({"c": "pollRaw"}),
             _ => {}
         }
     }
